@@ -32,6 +32,8 @@ def run(ctx):
     set_cell_scale_varies(True)            # some datasets are 100 m / 5 m models expressed in degrees
     from ..model.grids import set_wide_longitudes
     set_wide_longitudes(True)      # also datasets in the 0..360 convention / straddling 180 degrees
+    from ..model.grids import set_overlapping_cells
+    set_overlapping_cells(True)    # CF 1-D grids whose stored bounds reach into the neighbouring cells
     total = ctx.n(480, 36000)
     for case, rng in ctx.cases(total):
         conv = CONVENTIONS[case % len(CONVENTIONS)]
@@ -41,6 +43,8 @@ def run(ctx):
 
 def one_dataset(obs, rng, conv, spec, ctx):
     model = make_dressed(rng, conv, dress=dict(per_kind=(1, 1), nongrid=0, band=False))
+    if model.encoding.get('overlapping_cells'):
+        obs.cls('dataset:stored-bounds-overlap-the-neighbouring-cells')
     ds = model.encode()
     with quiet_warnings():
         ems = obs.call('dataset.ems', lambda: ds.ems)
